@@ -571,7 +571,8 @@ func (c *Client) send(dest *net.UDPAddr, msg *dhcpv4.DHCPv4) (resp <-chan *dhcpv
 
 	ch := make(chan *dhcpv4.DHCPv4, c.bufferCap)
 	done := make(chan struct{})
-	c.pending[msg.TransactionID] = &pendingCh{done: done, ch: ch}
+	pc := &pendingCh{done: done, ch: ch}
+	c.pending[msg.TransactionID] = pc
 	c.pendingMu.Unlock()
 
 	cancel = func() {
@@ -584,7 +585,9 @@ func (c *Client) send(dest *net.UDPAddr, msg *dhcpv4.DHCPv4) (resp <-chan *dhcpv
 		close(done)
 
 		c.pendingMu.Lock()
-		if p, ok := c.pending[msg.TransactionID]; ok {
+		// Only remove our own entry: receiveLoop may already have removed
+		// it, and another caller may have registered the same XID since.
+		if p, ok := c.pending[msg.TransactionID]; ok && p == pc {
 			close(p.ch)
 			delete(c.pending, msg.TransactionID)
 		}
